@@ -197,6 +197,7 @@ func (m *Machine) appendOp(s Slice, more value, site ssa.CallInstruction) value 
 		}
 	}
 	et := site.Common().Args[0].Type().Underlying().(*types.Slice).Elem()
+	m.account(conc(64, uint64(int64(newCap)*sizeOf(et))))
 	arr := make(Array, newCap)
 	for i := 0; i < ln; i++ {
 		arr[i] = copyVal(m.sliceElem(s, i))
